@@ -501,12 +501,14 @@ impl<T> Drop for Arc<T> {
             t[id] -= 1;
             // opt-in teardown (lock-lifetime harness only): run the value's drop glue when the last
             // strong reference goes away; everywhere else the value is leaked, see module doc
+            #[cfg(feature = "teardown")]
             if t[id] == 0 && unsafe { ARC_TEARDOWN } {
                 unsafe { core::ptr::drop_in_place(&mut (*(self.ptr as *mut ArcInner<T>)).value) };
             }
         }
     }
 }
+#[allow(dead_code)]
 static mut ARC_TEARDOWN: bool = false;
 /// Harness switch: drop the pointee when the last strong reference is dropped (default: leak).
 pub fn set_arc_teardown(on: bool) {
